@@ -33,6 +33,7 @@ type miscRun struct {
 	quiet    bool
 	retained map[string]bool
 	retKnown bool
+	syncBad  string
 }
 
 func newMiscRun() runner {
@@ -40,7 +41,15 @@ func newMiscRun() runner {
 		regs: map[string]krt.HandlerRegistration{}, frozen: map[string]int{}, xsubs: map[string]*subscriber{}}
 	r.sec = krt.NewStaticCollection[Obj](nil, nil, krt.WithStop(r.stop), krt.WithName("sec"))
 	r.third = krt.NewStaticCollection[Obj](nil, nil, krt.WithStop(r.stop), krt.WithName("third"))
-	r.cfg = krt.NewStatic[Obj](nil, true, krt.WithStop(r.stop), krt.WithName("cfg"))
+	// startSynced = false: the singleton reports unsynced until MarkSynced (the sync tracker of a static singleton)
+	r.cfg = krt.NewStatic[Obj](nil, false, krt.WithStop(r.stop), krt.WithName("cfg"))
+	if r.cfg.AsCollection().HasSynced() {
+		r.syncBad = "synced-before-MarkSynced"
+	}
+	r.cfg.MarkSynced()
+	if !r.cfg.AsCollection().HasSynced() {
+		r.syncBad = "unsynced-after-MarkSynced"
+	}
 	return r
 }
 
@@ -61,7 +70,13 @@ func (r *miscRun) start() {
 	r.der = krt.NewCollection[Obj, Out](r.prim, func(ctx krt.HandlerContext, i Obj) *Out {
 		c := krt.FetchOne(ctx, cfgCol)
 		a := r.secVal.Fetch(ctx, i.Val)
-		p := krt.PartialFetchComparable(ctx, r.third, func(o Obj) string { return o.NS + "." + o.Labels["l1"] }, krt.FilterKey(i.Ref))
+		part := func(o Obj) string { return o.NS + "." + o.Labels["l1"] }
+		var p []string
+		if i.Name == "a" {
+			p = krt.PartialFetchComparable(ctx, r.third, part, krt.FilterKey(i.Ref))
+		} else { // the same through PartialFetch with an equality function of its own
+			p = krt.PartialFetch(ctx, r.third, part, func(x, y string) bool { return len(x) == len(y) && x == y }, krt.FilterKey(i.Ref))
+		}
 		cs, ps := "-", "-"
 		if c != nil {
 			cs = c.ResourceName() + ":" + c.Val
@@ -91,7 +106,7 @@ func (r *miscRun) step(toks []string) (string, string) {
 	switch toks[0] {
 	case "p.set", "p.del", "s.set", "s.del", "t.set", "t.del", "x.set", "start", "sub":
 		defer func() { r.quiet = false }()
-	case "sync", "unsub", "list", "get", "stream", "xstream":
+	case "sync", "unsub", "xunsub", "list", "get", "stream", "xstream":
 		defer func() { r.quiet = true }()
 	}
 	switch {
@@ -162,12 +177,15 @@ func (r *miscRun) step(toks []string) (string, string) {
 		col := r.cfg.AsCollection()
 		switch toks[2] {
 		case "single":
-			col.Register(func(e krt.Event[Obj]) { recObj(s)([]krt.Event[Obj]{e}) })
+			s.reg = col.Register(func(e krt.Event[Obj]) { recObj(s)([]krt.Event[Obj]{e}) })
 		case "batch":
-			col.RegisterBatch(recObj(s), true)
+			s.reg = col.RegisterBatch(recObj(s), true)
 		default:
-			col.RegisterBatch(recObj(s), false)
+			s.reg = col.RegisterBatch(recObj(s), false)
 		}
+		return "ok", line
+	case toks[0] == "xunsub" && len(toks) == 2:
+		r.xsubs[toks[1]].unregister() // UnregisterHandler on a NewStatic singleton's registration
 		return "ok", line
 	case toks[0] == "xstream" && len(toks) == 2:
 		synctest.Wait()
@@ -175,9 +193,15 @@ func (r *miscRun) step(toks []string) (string, string) {
 		if s == nil {
 			return "xstream unknown-subscriber", line
 		}
+		if h := s.health(); h != "" && h != "registration-not-synced" {
+			return "xstream " + h, strings.Join(append([]string{"xstream", toks[1]}, s.snapshot()...), " ")
+		}
 		return "xstream accept", strings.Join(append([]string{"xstream", toks[1]}, s.snapshot()...), " ")
 	case toks[0] == "start" && len(toks) == 1:
 		r.start()
+		if r.syncBad != "" {
+			return r.syncBad, line
+		}
 		return "ok", line
 	case toks[0] == "sync" && len(toks) == 1:
 		synctest.Wait()
@@ -216,6 +240,9 @@ func (r *miscRun) step(toks []string) (string, string) {
 	synctest.Wait()
 	switch {
 	case toks[0] == "list" && len(toks) == 1:
+		if got := r.cfg.Get(); (got == nil) != (r.cfgVal == nil) || (got != nil && got.Token() != r.cfgVal.Token()) {
+			return "list inconsistent:Singleton.Get", line
+		}
 		return "list " + showEntries(r.der.List(), func(k string) bool { return !r.unknown(k) }), line
 	case toks[0] == "get" && len(toks) == 2:
 		if r.unknown(toks[1]) {
@@ -245,6 +272,7 @@ func genMiscCase(r *wire.Rng, n int, w *wire.Out) {
 	prim := map[string]bool{}
 	var subs []string
 	unsubbed := map[string]bool{}
+	xunsubbed := 0
 	nsub := 0
 	cfgObj := func() string {
 		if r.Chance(20, 100) {
@@ -302,6 +330,11 @@ func genMiscCase(r *wire.Rng, n int, w *wire.Out) {
 			name := fmt.Sprintf("x%d", len(xsubs)+1)
 			xsubs = append(xsubs, name)
 			w.Line("xsub", name, wire.Pick(r, []string{"single", "batch", "nostate"}))
+			continue
+		}
+		if len(xsubs) > xunsubbed && r.Chance(3, 100) {
+			w.Line("xunsub", xsubs[xunsubbed])
+			xunsubbed++
 			continue
 		}
 		switch x := r.Intn(100); {
